@@ -33,7 +33,7 @@ def _map_calls(body, method_suffixes):
         t = bl.term
         if t[0] == 'call' and t[3]:
             nm = callee(t)[1] or ''
-            if nm.startswith('std::collections::HashMap') and nm.endswith(method_suffixes):
+            if nm.startswith(('std::collections::HashMap', '<std::collections::HashMap')) and nm.endswith(method_suffixes):
                 f = _state_field(body, t[3][0])
                 if f:
                     out.append((bi, t, f))
@@ -44,7 +44,7 @@ def _mutators(prog):
     _install_roles(prog)
     state_methods = [b for b in prog.bodies.values() if b.crate == 'samlang_services' and b.kind == 'assoc'
                      and b.self_ty is not None and b.self_ty.k == 'adt' and b.self_ty.id == STATE]
-    recheck = [b for b in state_methods if any(f == 'errors' for _, _, f in _map_calls(b, ('::insert',)))]
+    recheck = [b for b in state_methods if any(f == 'errors' for _, _, f in _map_calls(b, ('::insert', '::extend')))]
     muts = []
     if len(recheck) == 1:
         rc = recheck[0]
@@ -117,6 +117,30 @@ def run_order(prog, tier, repo):
                     sd = single_def(b, vr) if vr is not None else None
                     from_parsed = sd is not None and sd[1] == 'term' and sd[2][3] and _state_field(b, sd[2][3][0]) == 'parsed_modules'
                     dep_assign.append((bi, from_parsed))
+        # ... or through a small method of the state that does exactly that (`self.rebuild_dep_graph()`)
+        for bi, bl in enumerate(b.blocks):
+            t = bl.term
+            if bl.cleanup or t[0] != 'call':
+                continue
+            hb = prog.bodies.get(callee(t)[0])
+            if hb is None or hb.id == b.id or hb.crate != 'samlang_services' or hb.self_ty is None or hb.self_ty.k != 'adt' \
+                    or hb.self_ty.id != STATE or len(hb.blocks) > 120:
+                continue
+            from ..core import places_read
+            reads_parsed = any(_ROLE_OF_FIELD.get(e[4]) == 'parsed_modules' for pl, _b, _l in places_read(hb)
+                               for e in pl.proj if e[0] == 'f' and e[1] == STATE)
+            found_ = False
+            for hbl in hb.blocks:
+                if hbl.cleanup or found_:
+                    continue
+                for st in hbl.stmts:
+                    if found_:
+                        break
+                    if st[0] == 'a' and st[1].proj and st[1].proj[-1][0] == 'f' and st[1].proj[-1][1] == STATE \
+                            and _ROLE_OF_FIELD.get(st[1].proj[-1][4]) == 'dep_graph':
+                        if reads_parsed:
+                            dep_assign.append((bi, True))
+                            found_ = True
         rechecks = [bi for bi, bl in enumerate(b.blocks) if bl.term[0] == 'call' and callee(bl.term)[0] == rc.id and not bl.cleanup]
         muts_parsed = [(bi, t) for bi, t, f in _map_calls(b, ('::insert', '::remove')) if f == 'parsed_modules']
         key = f'order:{b.name}'
@@ -224,7 +248,7 @@ def run_errors(prog, tier, repo):
         res.cannot_decide('the function that overwrites state.errors (recheck)')
         return [res]
     cfg = cfg_of(rc)
-    inserts = [bi for bi, t, f in _map_calls(rc, ('::insert',)) if f == 'errors']
+    inserts = [bi for bi, t, f in _map_calls(rc, ('::insert', '::extend')) if f == 'errors']
     # reads of the previous errors: direct field read or a ServerState method that returns from self.errors
     readers = set()
     for b in prog.bodies.values():
@@ -555,6 +579,14 @@ def run_sig_all(prog, tier, repo):
                 break
             t = sd[2]
             short = (callee(t)[1] or '').split('::')[-1]
+            if short in ('new', 'with_capacity', 'default', 'with_capacity_and_hasher', 'with_hasher'):
+                # an empty map filled afterwards: follow what it is extended with
+                ext = [bl2.term for bl2 in b.blocks if not bl2.cleanup and bl2.term[0] == 'call' and len(bl2.term[3]) >= 2
+                       and (callee(bl2.term)[1] or '').split('::')[-1] == 'extend' and operand_root(b, bl2.term[3][0])[0] == cur]
+                if len(ext) == 1 and ext[0][3][1][0] in ('c', 'm'):
+                    chain.append(('extend', ext[0][7]))
+                    cur = operand_root(b, ext[0][3][1])[0]
+                    continue
             chain.append((short, t[7]))
             if short in FILTERING:
                 problem = f'`{short}` (line {t[7]}) drops modules before their signatures are collected'
